@@ -2,6 +2,8 @@ import EgVerif.Proofs.IPFilter
 import EgVerif.Proofs.Mux
 import EgVerif.Gen.FactsC05
 import EgVerif.Proofs.IPFilterIR
+import EgVerif.Proofs.MuxCache
+import EgVerif.Proofs.MuxSearchIR
 /-!
 # C05 — IP filter: denied clients never reach a pipeline, allowed ones are unaffected
 
@@ -199,16 +201,90 @@ theorem denied_iff_table_denies (ρ : Nat → String → Bool) (fs : List Filter
     | none => simp only at hd; simp [IPFilter.allow, hd]
     | some a => simp only at hd; rw [allow_iff_table, hd]; rfl
 
+/-! ### Part 2b — cache on, across in-place reloads (Extension mux)
+
+The statement's "with or without the route cache and whatever requests preceded it", for histories of
+requests **and reloads** on one `mux` (`MuxCache.Op`, `runOps`: cache-hit branch, put sites, fresh cache per
+`mux.reload`). `reqCfgs {} ops` pairs the `k`-th request with the configuration current when it is
+served. Both theorems hold for every history, eviction behaviour and oracle; they are C12's
+`cache_transparent_across_reloads` (here through `runOps_eq`) composed with the cache-less theorems above. -/
+
+open EgVerif.MuxCache in
+/-- the `k`-th response of the (cached, reloaded) mux is the cache-less search under the configuration
+current at request time -/
+theorem response_across_reloads (o : Oracle) (strip : String → String) (ev : Nat → Key → Bool)
+    (ops : List Op) (hw : OpsWF strip ops) (k : Nat) (c : Cfg) (q : Req)
+    (hk : (reqCfgs {} ops)[k]? = some (c, q)) :
+    (runOps o ev 0 newMux ops)[k]? = some (search o c q) := by
+  rw [runOps_eq o strip ev ops 0 newMux hw (instInv_newMux o strip)]
+  simp [refOps, newMux, hk]
+
+open EgVerif.MuxCache in
+/-- **Denied clients never reach a handler — cache on, across reloads**: if a filter applying to the
+request *under the configuration current at request time* denies the client, the response is 403 and no
+handler runs, whatever was cached by whichever earlier generation. -/
+theorem denied_never_handled_across_reloads (o : Oracle) (σ : Nat → String → String → String) (x : Bool)
+    (bs : List String) (strip : String → String) (ev : Nat → Key → Bool) (ops : List Op)
+    (hw : OpsWF strip ops) (k : Nat) (c : Cfg) (q : Req) (hk : (reqCfgs {} ops)[k]? = some (c, q))
+    (h : Spec.denied o c q = true) :
+    (runOps o ev 0 newMux ops)[k]? = some (.code 403) ∧
+    ((runOps o ev 0 newMux ops)[k]?).map (serveRoute σ x bs q) = some (.status 403) := by
+  rw [response_across_reloads o strip ev ops hw k c q hk, (denied_never_handled o σ c x bs q h).1]
+  exact ⟨rfl, rfl⟩
+
+open EgVerif.MuxCache in
+/-- **Undenied clients are unaffected — cache on, across reloads**: if no applying filter of the current
+configuration denies, the response is the one of the current configuration with all filters removed
+(in particular a filter of an earlier generation never refuses anybody). -/
+theorem undenied_same_as_unfiltered_across_reloads (o : Oracle) (σ : Nat → String → String → String)
+    (x : Bool) (bs : List String) (strip : String → String) (ev : Nat → Key → Bool) (ops : List Op)
+    (hw : OpsWF strip ops) (k : Nat) (c : Cfg) (q : Req) (hk : (reqCfgs {} ops)[k]? = some (c, q))
+    (h : Spec.denied o c q = false) :
+    (runOps o ev 0 newMux ops)[k]? = some (search (unfiltered o) c q) ∧
+    ((runOps o ev 0 newMux ops)[k]?).map (serveRoute σ x bs q) = some (serve (unfiltered o) σ c x bs q) := by
+  rw [response_across_reloads o strip ev ops hw k c q hk, (undenied_same_as_unfiltered o σ c x bs q h).1]
+  exact ⟨rfl, rfl⟩
+
+open EgVerif.MuxCache in
+/-- **Cached 404 / 405 (and cached paths) versus IP filters**: whatever a miss for `q` stores under its key —
+a path *or a failure code* — a later request `q'` with the same key whose client is denied by a filter
+applying to `q'` gets 403 from the hit branch, never the cached 404 / 405 / path; an undenied one gets
+exactly the filter-free answer. (Before the repair c41a2a6 cached codes were returned before any
+filter: `C12.old_ip_bypass_404`.) -/
+theorem cached_entry_respects_filters (o : Oracle) (c : Cfg) (strip : String → String) (q q' : Req)
+    (hq : WF strip q) (hq' : WF strip q') (hk : keyOf q' = keyOf q) (r : CRoute)
+    (h : (searchMiss o c q).2 = some r) :
+    (Spec.denied o c q' = true → hit o r q' = .code 403) ∧
+    (Spec.denied o c q' = false → hit o r q' = search (unfiltered o) c q') := by
+  have hs := put_sound o c (sameKey_of_key hq hq' hk.symm) r h
+  constructor
+  · intro hd; rw [hs, (denied_never_handled o (fun _ p _ => p) c false [] q' hd).1]
+  · intro hd; rw [hs, (undenied_same_as_unfiltered o (fun _ p _ => p) c false [] q' hd).1]
+
+/-- Non-vacuity: the 404 cached for `/nothing` under `cfgR2` (server filter 0 blocks 10.0.0.1) carries the
+server filter; the blocked client gets 403 from the hit, the other one the cached 404. -/
+example : (EgVerif.MuxCache.searchMiss EgVerif.C12w.oR EgVerif.C12w.cfgR2 (EgVerif.C12w.qN "10.0.0.2")).2 = some ⟨.code 404, [0]⟩ ∧
+    EgVerif.MuxCache.hit EgVerif.C12w.oR ⟨.code 404, [0]⟩ (EgVerif.C12w.qN "10.0.0.1") = .code 403 ∧
+    EgVerif.MuxCache.hit EgVerif.C12w.oR ⟨.code 404, [0]⟩ (EgVerif.C12w.qN "10.0.0.2") = .code 404 := by decide
+
+/-- Non-vacuity (C12's witness history): generation 2 adds a server filter that blocks 10.0.0.1; the key
+`/x` was cached by generation 1; request 2 (the third) comes from the blocked client. -/
+example : (EgVerif.MuxCache.reqCfgs {} EgVerif.C12w.histR)[2]? = some (EgVerif.C12w.cfgR2, EgVerif.C12w.qR "10.0.0.1") ∧
+    Spec.denied EgVerif.C12w.oR EgVerif.C12w.cfgR2 (EgVerif.C12w.qR "10.0.0.1") = true ∧
+    Spec.denied EgVerif.C12w.oR EgVerif.C12w.cfgR2 (EgVerif.C12w.qR "10.0.0.2") = false ∧
+    (EgVerif.MuxCache.runOps EgVerif.C12w.oR (fun _ _ => false) 0 EgVerif.MuxCache.newMux EgVerif.C12w.histR)[2]? = some (.code 403) := by
+  decide
+
 /-! ### Facts regenerated from the source on every run -/
 
-/-- `search` consults exactly the server, rule and path filter, in that order, each through
-`allowIP(X, ip)` (directly or via the local closure `allow`, which only records the filter for the
-route cache), and a denial returns `forbidden` = 403; `Allow`'s default and switch are
-the modelled table; `New` chooses family and mask by `To4()` and no longer by counting colons. -/
+/-- `forbidden` is 403; `Allow`'s default and switch are the modelled table. That `search` consults
+exactly the server, rule and path filter, in that order, and that a denial returns `forbidden`, was a
+textual fact here (`allowIPArgs`, `allowClosureDelegates`, `denyReturnsForbidden`, still generated for the
+reader); since Extension mux it is proved semantically by `search_regenerated_from_source` below (the
+translated body of `search` equals the model on every input), which survives renamings and
+restructurings of the checks. `New` chooses family and mask by `To4()` (next theorem). -/
 theorem ipfilter_facts :
     Gen.FactsC05.extractionFailed = false ∧
-    Gen.FactsC05.allowIPArgs = ["mi.ipFilter", "host.ipFilter", "path.ipFilter"] ∧
-    Gen.FactsC05.allowClosureDelegates = true ∧ Gen.FactsC05.denyReturnsForbidden = true ∧
     Gen.FactsC05.forbiddenIs403 = true ∧
     Gen.FactsC05.allowDefault = "!f.spec.BlockByDefault" ∧
     Gen.FactsC05.allowSwitch = ["allowed && blocked => defaultResult", "allowed => true",
@@ -256,5 +332,38 @@ theorem allow_regenerated_from_source (f : Filter) (ip : Option Addr) :
 theorem allowAll_regenerated_from_source (fs : List Filter) (ip : Option Addr) :
     Gen.FactsC05IR.extractionFailed = false ∧ Gen.FactsC05IR.allowAllIR fs ip = IPFilter.allowAll fs ip :=
   ⟨by decide, IPFilter.allowAll_regenerated_from_source fs ip⟩
+
+/-- **`muxInstance.search`, IP-filter part** (Extension mux): the generated `searchIR` (the current body of
+`search`, closure `allow` inlined) answers, on a miss, with the model's cache-less search — so it is 403
+exactly when an applying filter denies (`search_eq_filtered_spec`) — and on a hit with `MuxCache.hit`,
+which re-checks the recorded filters. -/
+theorem search_regenerated_from_source (o : Oracle) (c : Cfg) (q : Req) :
+    Gen.FactsMuxIR.extractionFailed = false ∧
+    (Gen.FactsMuxIR.searchIR o c q none).1 =
+      MuxCache.routeGo (if Spec.denied o c q then .code 403 else route o c q) ∧
+    (∀ r : MuxCache.CRoute, (Gen.FactsMuxIR.searchIR o c q (some r.go)).1 = MuxCache.routeGo (MuxCache.hit o r q)) := by
+  refine ⟨by decide, ?_, ?_⟩
+  · rw [MuxCache.search_regenerated_from_source, MuxCache.searchMiss_fst, search_eq_routeF]; rfl
+  · intro r; rw [MuxCache.search_regenerated_from_source_hit]
+
+/-- `allowIP`: a nil filter allows, otherwise the filter's `Allow`; never a nil dereference. -/
+theorem allowIP_regenerated_from_source (o : Oracle) (f : Option Nat) (ip : String) :
+    Gen.FactsMuxIR.extractionFailed = false ∧ Gen.FactsMuxIR.allowIPIR o f ip = some (allowIP o f ip) :=
+  ⟨by decide, MuxCache.allowIP_regenerated_from_source o f ip⟩
+
+/-- **`ipfilter.New`, mask / classification logic** (Extension mux): `Gen.FactsC05IR.rangerIR` is re-translated
+on every run from the current body of the closure `rangerFromIPCIDRs` of `New` — `net.ParseIP` first, mask
+chosen by `To4()`, else `net.ParseCIDR`, junk skipped, an IPv4-mapped CIDR (`To4() != nil` with a 16-byte
+mask) converted to the IPv4 network with the last 4 mask bytes — and it is the model's `ranger`
+(= `filterMap mkCidr`) for every list of entries (`EntryWF`: a mask's bit size is 8 × its byte length).
+This replaces the weak syntactic fact `new_mask_by_family` as the tie of the repaired code. -/
+theorem new_regenerated_from_source (es : List RawEntry) (hw : ∀ e ∈ es, IPFilter.EntryWF e) :
+    Gen.FactsC05IR.extractionFailed = false ∧ Gen.FactsC05IR.rangerIR es = ranger es :=
+  ⟨by decide, IPFilter.new_regenerated_from_source es hw⟩
+
+/-- non-vacuity: a mixed list incl. the IPv4-mapped spellings of the genuine defect (d1f6433) -/
+example : Gen.FactsC05IR.rangerIR [.ip (.v4 0x01020304), .cidr (.v4 0x01020000) 112 128, .bad, .cidr (.v6 1) 64 128,
+      .cidr (.v4 0x0a000000) 8 32] =
+    [⟨.v4 0x01020304, 32⟩, ⟨.v4 0x01020000, 16⟩, ⟨.v6 1, 64⟩, ⟨.v4 0x0a000000, 8⟩] := by decide
 
 end EgVerif.C05
